@@ -1358,7 +1358,8 @@ static int32_t write_literal(void *context, const char *text, int length, int wr
  */
 static int32_t write_uliteral(void *context, const UChar *text, int length, int wrap) {
     if (length < 0) {
-        length = u_countChar32(text, -1);
+        /* the precision of the format below counts UTF-16 code units, as do the lengths passed explicitly */
+        length = u_strlen(text);
     }
 
     if (length == 0) {
